@@ -31,6 +31,10 @@ pub mod unmanaged;
 
 pub use deadpool_runtime::{Runtime, SpawnBlockingError};
 
+#[cfg(deadpool_verif)]
+#[allow(missing_docs, missing_debug_implementations, unreachable_pub)]
+pub mod verif;
+
 /// The current pool status.
 ///
 /// **The status returned by the pool is not guaranteed to be consistent!**
